@@ -195,6 +195,7 @@ func checkC02(cx *Ctx, r *Report) {
 	w, fx := cx.W, cx.Fx
 	// storage is asked with the request's context (which carries the issuer in effect)
 	cx.checkStorageContext(r)
+	cx.checkStorageIsTheApplications(r)
 	// the registered locations are used as published: module code does not edit decoded metadata (shared with C16)
 	cx.checkDecodedMetadataUntouched(r)
 	r.Clauses = []string{
@@ -245,6 +246,8 @@ func checkC02(cx *Ctx, r *Report) {
 		p := fx.path(sites[0].Common().Args[a.idx])
 		r.Check(strings.HasSuffix(fx.T(p), "<provider.Response>."+a.fld), "R-VFG", fmt.Sprintf("sso:CreateAuthRequest:arg%d:same-field", a.idx), w.InstrPos(sites[0]), "is Response."+a.fld+", the field the selection result was stored to", "the value persisted is not Response."+a.fld+" (got "+p+"): the pair persisted can differ from the pair selected")
 	}
+	// the pair is one entry: both results of the selection come from the same element (shared with C16)
+	cx.checkSelectionPairs(r)
 	// the selection's results are stored to the two fields together
 	for _, c := range w.callsTo(w.scopeOf(w.Func(kSSO)), matchFnKey(w, "provider.GetAcsUrlAndBindingForResponse")) {
 		call, ok := c.(*ssa.Call)
